@@ -92,6 +92,13 @@ CHECKS = {
         'parsing is case-insensitive (C12_case_insensitive); get_dtype(notation) renders the requested notation whatever the configured default (C12_get_dtype). Decimal numerals use the standard library DecimalString/DecimalZ; the two regular expressions are represented by a hand-written matcher '
         '(alternation order and backtracking of re.match included) that is tied to the real regexes by the correspondence run. Tie: every format with n_word<=24 plus boundary words up to 256 (all words in the thorough tier), n_frac -8..n_word+8, complex suffix, both configured defaults, constructor and resize, Q/UQ/S/U/QU spellings in every case.',
    design='7/C12', technique='Coq proof of parser/printer round trips + differential correspondence on strings'),
+
+ 'C14': dict(
+   text='Proof: x << n in expand mode stores code*2^n in the grown word with no flag (C14_lshift_expand, from the bit-length bound of the word-growth formula); x >> n in expand mode is an exact division for arrays of any length: '
+        'utils.min_pow2 is modelled as a fuelled loop whose invariant characterises its result as the 2-adic valuation of the array (C14_min_pow2_is_valuation), the fraction grows by exactly n minus it, and code\'*2^(n-e) = code (C14_rshift_expand); '
+        'trunc/keep: >> is floor(code/2^n) in the unchanged format and stays in range (C14_rshift_keep), << is exact when representable and clamped otherwise (C14_lshift_keep). The float log2 bit-length is a modelled primitive (|code| < 2^47). '
+        'Tie: all codes of small words, boundary/random codes to 32 bits, all counts 0..n_word+3, three modes, scalars and arrays; exact-rational relations on the implementation output and the model.',
+   design='7/C14', technique='Coq proof (loop invariant, exactness) + differential correspondence'),
 }
 NA_REASON = 'check not built yet (work in progress; see DESIGN.md section 10 order of work)'
 def main():
